@@ -1,6 +1,8 @@
-import TracklibVerif.Model.MapMatch
+import TracklibVerif.Model.MapMatchNet
 import TracklibVerif.Drv.Util
-/-! Driver handler for C10 (map-matching candidates and inference), `Float` instance of `Model/MapMatch`.
+/-! Driver handler for C10 (map-matching), `Float` instances of `Model/MapMatch` (command `match`: candidate loop and inference
+on candidate lists and decoded indices given by the caller) and of `Model/MapMatchNet` (command `net`: network construction,
+spatial index, search unit, candidates, front end; the caller only says which edge the decoder chose).
 Floats are IEEE bit patterns.
   match <radius> <edges> <track> <cands> <idx>
      edges : edge geometries separated by `|`, vertices by `;`, `x,y`        (edge number = position)
@@ -10,7 +12,19 @@ Floats are IEEE bit patterns.
    → `ok <STATES> # <inference>` : per observation (separated by `|`) the states `px,py,edge,d0,d1` separated by `;`
      (inference: one state per observation separated by `;`, `_` when idx = x)
    | `err zerodiv` | `err unbound` | `err index`
-  curv <geometry>  → the abs_curv column of a geometry (computeAbsCurv) -/
+  curv <geometry>  → the abs_curv column of a geometry (computeAbsCurv)
+  net <edges> <late> <res> <margin> <call> <call> …      (`Model/MapMatchNet`: construction path, index of C08, front end)
+     edges : `|`-separated `id:s:t:orientation:sx,sy:tx,ty:geometry` — the `Edge` (geometry `x,y;x,y;…`, its abs_curv column is
+             computed by the model as `computeAbsCurv` does) and the two `Node(id, coord)` handed to `Network.addEdge`
+     late  : number of edges added AFTER `network.spatial_index = SpatialIndex(network, res, margin)`
+     res   : `none` or `rx,ry`;   margin : scalar
+     call  : `radius:gps_noise:one|many:track/track/…`, track = `names~noise~points~chosen` — feature names before the call,
+             content of the obs_noise column (`_` when absent), observations, and the decoder's answer given as the EDGE
+             NUMBER of the state chosen at each epoch (-1 = the flag state), `x` = no decoding
+   → `err:<kind>` when the construction raises, else
+     `ok <geoms> <curvs> <nodes> <ends> <grid> <call> <call> …` : geometries and abs_curv columns by edge number, node table
+     `id,x,y;…` in registration order, `source,target;…` by edge number, `xmin,xmax,ymin,ymax,csize,lsize`, and per call the
+     tracks `STATES#inference#names#obs_noise#positions` separated by `/`, the first failing track being `E<kind>`. -/
 namespace TV.Drv.C10
 open TV.Proj TV.MapMatch TV.Drv
 
@@ -34,8 +48,119 @@ def cand? (s : String) : Option (Option (List Nat)) :=
 def showState (s : State Float) : String :=
   s!"{showFloat s.p.1},{showFloat s.p.2},{s.edge},{showFloat s.d0},{showFloat s.d1}"
 
+local instance : IntCast Float := ⟨Float.ofInt⟩
+
+/-- `math.floor` of a finite double as an integer -/
+def flFloat (x : Float) : Int :=
+  let f := x.floor
+  if f < 0 then -(((-f).toUInt64.toNat : Nat) : Int) else ((f.toUInt64.toNat : Nat) : Int)
+
+def showErrN : MapMatch.ErrN → String
+  | .mm (.proj .zerodiv) => "Ezerodiv"
+  | .mm (.proj .unbound) => "Eunbound"
+  | .mm .index => "Eindex"
+  | .grid .zerodiv => "Ezerodiv"
+  | .grid .index => "Eindex"
+  | .grid .type => "Etype"
+  | .grid .exit => "Eexit"
+  | .zerodiv => "Ezerodiv"
+  | .noIndex => "Enoindex"
+  | .emptyTrack => "Eempty"
+
+def edgeIn? (s : String) : Option (EdgeIn Float × Node Float × Node Float) :=
+  match s.splitOn ":" with
+  | [i, a, b, o, ca, cb, g] => do
+    let i ← i.toNat?; let a ← a.toNat?; let b ← b.toNat?; let o ← o.toInt?
+    let ca ← pt? ca; let cb ← pt? cb; let g ← geom? g
+    pure (readerEdge Float.sqrt i g o 0, ⟨a, ca⟩, ⟨b, cb⟩)
+  | _ => none
+
+structure TrackReq where
+  t : TrackS Float
+  chosen : Option (List Int)
+
+def trackReq? (s : String) : Option TrackReq :=
+  match s.splitOn "~" with
+  | [ns, nz, pts, ch] => do
+    let noise ← floatList? nz
+    let pts ← geom? pts
+    let chosen ← if ch == "x" then some none else (intList? ch).map some
+    pure ⟨⟨pts.map (fun p => ⟨p, 0⟩), splitTok ns ',', noise⟩, chosen⟩
+  | _ => none
+
+structure CallReq where
+  radius : Float
+  noise : Float
+  one : Bool
+  tracks : List TrackReq
+
+def callReq? (s : String) : Option CallReq :=
+  match s.splitOn ":" with
+  | [r, n, form, ts] => do
+    let r ← float? r; let n ← float? n
+    let one ← if form == "one" then some true else if form == "many" then some false else none
+    let ts ← (ts.splitOn "/").mapM trackReq?
+    if one && ts.length != 1 then none else pure ⟨r, n, one, ts⟩
+  | _ => none
+
+/-- the decoder of the driver: per epoch the position, in that epoch's candidate list, of the state with the requested
+edge number (the real decoder's answer, told independently of the order of the candidates); an epoch without such a state
+gets an out-of-range index, which the backward step reports as `IndexError` -/
+def chosenDecoder (chosen : List Int) : Decoder Float := fun _ _ states =>
+  (states.zip chosen).map (fun (l, c) => (l.findIdx? (fun s => s.edge == c)).getD l.length)
+
+def showStates (st : List (List (State Float))) : String :=
+  joinWith "|" (st.map (fun l => joinWith ";" (l.map showState)))
+
+def showResultN (r : ResultN Float) : String :=
+  showStates r.states ++ "#" ++ joinWith ";" (r.inference.map showState) ++ "#" ++ joinWith "," r.track.names ++ "#"
+    ++ showList showFloat r.track.noise ++ "#" ++ joinWith ";" (r.track.obs.map (fun o => s!"{showFloat o.pos.1},{showFloat o.pos.2}"))
+
+/-- one call of the front end; every track is decoded with its own chosen edge numbers (a track without decoding only
+has its `STATES` computed, as the real call did before it raised) -/
+def runCall (net : Net Float) (c : CallReq) : String :=
+  let a : Args Float := ⟨c.noise, 10, c.radius, false, false⟩
+  let rec go : List TrackReq → List String
+    | [] => []
+    | tr :: rest =>
+      match tr.chosen with
+      | none =>
+        if tr.t.obs.isEmpty then ["Eempty"] else
+        match allStatesNet Float.sqrt flFloat eps c.radius net tr.t.obs with
+        | .error e => [showErrN e]
+        | .ok st => [showStates st ++ "#_#_#_#_"]
+      | some ch =>
+        let arg : TracksArg Float := if c.one then .one tr.t else .many [tr.t]
+        match mapOnNetworkFront Float.sqrt flFloat eps net (chosenDecoder ch) a arg with
+        | ([r], none) => showResultN r :: go rest
+        | (_, some e) => [showErrN e]
+        | _ => ["Ebad"]
+  joinWith "/" (go c.tracks)
+
+def showNet (net : Net Float) : String :=
+  let es := (List.range net.edges.length).filterMap (edgeNo net)
+  let geoms := joinWith "|" (es.map (fun ne => joinWith ";" (ne.e.geom.map (fun p => s!"{showFloat p.1},{showFloat p.2}"))))
+  let curvs := joinWith "|" (es.map (fun ne => showList showFloat ne.e.curv))
+  let nodes := joinWith ";" (net.nodes.map (fun n => s!"{n.id},{showFloat n.coord.1},{showFloat n.coord.2}"))
+  let ends := joinWith ";" (es.map (fun ne => s!"{ne.source},{ne.target}"))
+  let grid := match net.index with
+    | none => "none"
+    | some ix => s!"{showFloat ix.xmin},{showFloat ix.xmax},{showFloat ix.ymin},{showFloat ix.ymax},{ix.csize},{ix.lsize}"
+  s!"{geoms} {curvs} {nodes} {ends} {grid}"
+
+def showGridErr : Grid.Err → String
+  | .zerodiv => "err:zerodiv" | .index => "err:index" | .type => "err:type" | .exit => "err:exit"
+
 def handle (cmd : String) (args : List String) : String :=
   match cmd, args with
+  | "net", es :: late :: res :: margin :: calls =>
+    let res? : Option (Option (Float × Float)) := if res == "none" then some none else (pt? res).map some
+    match (es.splitOn "|").mapM edgeIn?, late.toNat?, res?, float? margin, calls.mapM callReq? with
+    | some es, some late, some res, some margin, some calls =>
+      match buildNet flFloat es late res margin with
+      | .error e => showGridErr e
+      | .ok net => " ".intercalate (["ok", showNet net] ++ calls.map (runCall net))
+    | _, _, _, _, _ => "bad-request"
   | "curv", [g] =>
     match geom? g with
     | some pts => showList showFloat (absCurv Float.sqrt pts)
